@@ -6,6 +6,7 @@ func init() {
 	serve("C02", "B1", "B1n", "B2", "B3", "B4")
 	serve("C03", "F1", "F2", "T6", "B4")
 	serve("CXX", "T4", "T5", "T6")
+	serve("CL", "L1", "L2", "L3", "L4")
 	serve("CB", "T8", "T3", "F1", "F2", "B1", "B2", "B3", "B4", "B1n", "T1", "T2", "T4", "T5", "T6")
 	serve("C06", "T1", "T2", "T3", "T4", "T5")
 }
